@@ -99,18 +99,20 @@ Definition ukf_correct_loop {n m} (meas_size : nat) (pred : list (M O n 1 * M O 
 Definition overwrite_prefix {A} (new old : list A) : list A := new ++ skipn (length new) old.
 
 (* the tail of correctStep shared by both constructors: [ut] is the outcome of the
-   transform through the measurement model (None: invalid) *)
+   transform through the measurement model (None: invalid).  correctStep starts by
+   emptying innovations_ (no likelihood until this correction has used a measurement);
+   [st_old] is kept as an argument only to show that nothing else of it survives. *)
 Definition ukf_correct_finish {n m} (meas_size : nat) (y : M O m 1)
            (innovation : list (M O m 1) -> M O m 1 -> option (list (M O m 1)))
            (ut : option (ut_result O m m n))
            (pred corr_old : mixture n n) (st_old : ukf_state m)
   : mixture n n * ukf_state m * list (kf_out O n m) :=
   match ut with
-  | None => (pred, mkUkfState (us_innov st_old) [], [])      (* predicted_meas_ was overwritten by the default mixture *)
+  | None => (pred, mkUkfState [] [], [])      (* predicted_meas_ was overwritten by the default mixture *)
   | Some r =>
       let Pyy := map (fun u => uc_cov u) (ur_comps r) in
       match innovation (map (fun u => uc_mean u) (ur_comps r)) y with
-      | None => (pred, mkUkfState (us_innov st_old) Pyy, [])
+      | None => (pred, mkUkfState [] Pyy, [])
       | Some nus =>
           let outs := ukf_correct_loop meas_size (mx_comps pred) r nus in
           (mkMix (mx_layout corr_old)
@@ -127,9 +129,9 @@ Definition ukf_correct_additive {n m} (Ldesc Lmeas : layout) (alpha beta kappa :
            (innovation : list (M O m 1) -> M O m 1 -> option (list (M O m 1)))
            (R : M O m m) (pred corr_old : mixture n n) (st_old : ukf_state m)
   : mixture n n * ukf_state m * list (kf_out O n m) :=
-  if skip then (pred, st_old, [])
+  if skip then (pred, st_old, [])             (* GaussianCorrection::correct: correctStep is not entered *)
   else match measure with
-  | None => (pred, st_old, [])
+  | None => (pred, mkUkfState [] (us_Pyy st_old), [])   (* correctStep starts with innovations_.resize(0, 0) *)
   | Some y =>
       let w := ut_weights_of (l_noiseless Ldesc) alpha beta kappa in
       ukf_correct_finish (l_dim Lmeas) y innovation
@@ -145,9 +147,9 @@ Definition ukf_correct_generic {n q m} (Ldesc Lmeas : layout) (alpha beta kappa 
            (innovation : list (M O m 1) -> M O m 1 -> option (list (M O m 1)))
            (Rv : M O q q) (pred corr_old : mixture n n) (st_old : ukf_state m)
   : mixture n n * ukf_state m * list (kf_out O n m) :=
-  if skip then (pred, st_old, [])
+  if skip then (pred, st_old, [])             (* GaussianCorrection::correct: correctStep is not entered *)
   else match measure with
-  | None => (pred, st_old, [])
+  | None => (pred, mkUkfState [] (us_Pyy st_old), [])   (* correctStep starts with innovations_.resize(0, 0) *)
   | Some y =>
       let w := ut_weights_of Ldesc alpha beta kappa in
       ukf_correct_finish (l_dim Lmeas) y innovation
